@@ -215,19 +215,7 @@ func runC12(r *Report, tier string) {
 // checkHashTable: the algorithm -> crypto.Hash table (shared with C17).
 func checkHashTable(r *Report, rule string) {
 	P := r.P
-	alg := P.mustNamed("Algorithm")
-	hf := P.methodOf(alg, "hashFunc")
-	if hf == nil {
-		// by role: method of Algorithm returning crypto.Hash
-		for _, fn := range P.Funcs {
-			if fn.Signature.Recv() != nil && isNamed(fn.Signature.Recv().Type(), cosePath, "Algorithm") && fn.Signature.Results().Len() == 1 && fn.Signature.Results().At(0).Type().String() == "crypto.Hash" {
-				hf = fn
-			}
-		}
-	}
-	if hf == nil {
-		undecidedf("anchor not found: Algorithm -> crypto.Hash table")
-	}
+	hf := P.hashTableFunc()
 	tab, why := P.constTable(hf, 0, 0)
 	o := r.ob(rule, shortFn(hf)+":table", hf, nil, "algorithm->hash table is {PS256,ES256,SHA-256: SHA256; ...384: SHA384; ...512: SHA512; else 0}")
 	if tab == nil {
@@ -618,4 +606,15 @@ func checkEnvelopeRawNil(r *Report, rule string) {
 			r.ob(rule, id+":"+f+"-nil", E.sign, x.ret, "Headers."+f+" handed to Sign1 is the nil constant (what is emitted is what was validated)").check(v.Op == "nil", f+" = nil", "Headers."+f+" handed to Sign1 is "+v.String())
 		}
 	}
+}
+
+// hashTableFunc: by role, the method of Algorithm returning a crypto.Hash.
+func (P *Prog) hashTableFunc() *ssa.Function {
+	for _, fn := range P.Funcs {
+		if fn.Signature.Recv() != nil && isNamed(fn.Signature.Recv().Type(), cosePath, "Algorithm") && fn.Signature.Params().Len() == 0 && fn.Signature.Results().Len() == 1 && fn.Signature.Results().At(0).Type().String() == "crypto.Hash" {
+			return fn
+		}
+	}
+	undecidedf("anchor not found: Algorithm -> crypto.Hash table")
+	return nil
 }
